@@ -65,6 +65,7 @@ class Spec:
 
 
 _SPEC = None
+MAX_SHRINK = 80  # undominated failures shrunk per clause and per spec (simplest first)
 
 
 def _expand(chunk):
@@ -263,12 +264,22 @@ def _report(spec, chk, failures):
     failures.sort(key=lambda f: (len(f[0]), f[0], f[1], core.canon_json(f[2])))
     minimal = {}  # clause -> list of (ops tuple, query json)
     ccache = {}
+    shrunk = {}
     for (h, clause, query, exp, got) in failures:
         chk.clause(clause, failed=1)
         qj = core.canon_json(query)
         ops = tuple(_simp_closure(spec, spec.ops[i], ccache) for i in h)
         if any(q == qj and _is_subseq(m, ops) for (m, q) in minimal.get(clause, ())):
             chk.cov["dominated_failures"] += 1
+            continue
+        shrunk[clause] = shrunk.get(clause, 0) + 1
+        if shrunk[clause] > MAX_SHRINK:
+            # too many undominated failures (a badly broken tree): count them, keep one example (overflow rule)
+            ovf = chk.cov.setdefault("overflow", {})
+            ovf[clause] = ovf.get(clause, 0) + 1
+            w0 = {"ops": [spec.ops[i] for i in h], "query": query}
+            w0.update(spec.witness_fields())
+            chk.overflow_examples.setdefault(clause, (clause, w0, exp, got))
             continue
         # greedy shrink on explicit op lists
         cur = [spec.ops[i] for i in h]
@@ -308,6 +319,9 @@ def _report(spec, chk, failures):
 def spec_fails(spec, oplist, clause, query):
     """Judge an explicit op list (ops need not be in spec.ops)."""
     qj = core.canon_json(query)
+    narrow = getattr(spec, "narrow", None)
+    if narrow is not None:
+        spec = narrow(query)  # same spec, restricted to this one query (shrinking re-executes a lot)
     try:
         obj = spec.build_ops(oplist)
     except Exception as e:
